@@ -4,8 +4,8 @@ monitors evaluated directly on the implementation's trace."""
 import monitors as M
 
 TRUSTED_BASE = [
-    'Coq 8.16.1 kernel and its vm_compute machine (no native_compute)',
-    'extraction with ExtrOcamlBasic directives only (bool, option, list, prod, unit, sumbool); numbers and bytes stay Coq datatypes; OCaml 4.13.1; Extract/modelrun.ml (string <-> byte list glue)',
+    'Coq 8.16.1 kernel and its vm_compute machine (no native_compute); Print Assumptions of every property theorem: closed under the global context (no axioms); coqchk -o in the thorough tier: Axioms <none>',
+    'extraction with the directives of ExtrOcamlBasic only (Extract Inductive bool, option, unit, list, prod, sumbool, sumor; Extract Inlined Constant andb, orb); numbers and bytes stay Coq datatypes; OCaml 4.13.1; Extract/modelrun.ml (string <-> byte list glue); cross-checked on every run by re-evaluating a trace prefix inside Coq with vm_compute',
     'the Go harness (reference ledger for x/bank and x/fiattokenfactory, re-implementation of baseapp\'s CacheContext/rollback rule, tracing store service, generators, canonical printers) and this Python comparison',
     'tools/goextract (syntactic go/ast translator producing Gen/*.v)',
 ]
